@@ -1,76 +1,108 @@
 ------------------------------ MODULE MC_Eval ------------------------------
-(* Exhaustive model of numeric expressions (C01, and the grammar side of C06).
+(* Exhaustive model of expressions, driven from the grammar side (C01, C06).
 
-   Every expression tree with at most K binary operators over + - * / ^ and a fixed set of
-   literal / percentage leaves is built (shapes and operators in Init, the leaves in Next so
-   that the work is spread over TLC's workers), rendered to characters in several layouts
-   (minimal parentheses as the precedence rules allow, or every operand parenthesised; with
-   or without the optional blanks), and for every rendering TLC checks
+   Every expression tree with at most K binary operators (shapes and operators in Init, the
+   leaves in Next so that the work is spread over TLC's workers) is rendered to characters in
+   several layouts -- minimal parentheses as the precedence rules allow or every operand
+   parenthesised; blanks around every operator, no optional blank at all, or several blanks /
+   tabs plus blanks inside parentheses and at both ends -- and for every rendering TLC checks
 
      RenderParses   Lexer.tla + Grammar.tla read the characters back as exactly that tree
                     (precedence, associativity, grouping, optional blanks: the declarative
                     grammar agrees with the meaning of the rendering);
+     ParserRefines  the transcription of the hand-written parser and of the evaluator's tree walk
+                    (Parser.tla) computes exactly the grammar's reading from the same tokens;
      ValueLayers    the value in F_p and the exact small rational of the same tree agree
                     (the two arithmetic layers of the specification check each other);
      DzPropagates   a division by an exact zero anywhere the evaluation reaches makes the
                     whole expression "dz"; "dz" is never turned into a value.
 
+   OpSet "arith": + - * / ^ ;  "cast": additionally `to` with a unit as right operand.
+   LeafSet "full" / "small": literals and a percentage;  "primes": 2 3 5 7 (so that different
+   groupings of the same operator string have different values) plus a function call.
    With Emit = TRUE every rendering is printed as a VEC line; the harness evaluates each with
    the real library and Trace_Lang.tla compares (spec -> implementation replay).          *)
-EXTENDS Eval, Json
+EXTENDS Eval, Parser, Json
 
 CONSTANTS K,          \* maximal number of operators
-          LeafSet,    \* which leaf alphabet: "full" or "small"
+          KMin,       \* minimal number of operators (trees below are not built)
+          LeafSet,    \* "full", "small", "primes"
+          OpSet,      \* "arith", "cast"
           LayoutSet,  \* "all": every layout; "two": minimal parentheses with blanks, full parentheses tight
           Emit
 
 Lit(cs) == [t |-> "lit", cs |-> cs]
 Pct(cs) == [t |-> "pct", cs |-> cs]
+UnitLeaf(cs) == [t |-> "unit", cs |-> cs]
+Bin(o, a, b) == [t |-> "bin", op |-> o, l |-> a, r |-> b]
+Call(fn, a) == [t |-> "call", fn |-> fn, a |-> a]
 LeavesFull == {Lit(<<"0">>), Lit(<<"1">>), Lit(<<"2">>), Lit(<<"3">>), Lit(<<"-", "2">>), Lit(<<"0", ".", "5">>),
                Lit(<<"0", ".", "1">>), Pct(<<"2", "5">>)}
 LeavesSmall == {Lit(<<"0">>), Lit(<<"2">>), Lit(<<"-", "3">>), Lit(<<".", "5">>)}
-Leaves == IF LeafSet = "full" THEN LeavesFull ELSE LeavesSmall
+LeavesPrimes == {Lit(<<"2">>), Lit(<<"3">>), Lit(<<"5">>), Lit(<<"7">>),
+                 Call(<<"r", "o", "u", "n", "d">>, Bin("/", Lit(<<"7">>), Lit(<<"2">>)))}
+\* "pos": one assignment only -- the i-th leaf is the i-th prime (operator sequences up to length 5
+\* with every placement of parentheses stay enumerable)
+PosLeaves == <<Lit(<<"2">>), Lit(<<"3">>), Lit(<<"5">>), Lit(<<"7">>), Lit(<<"1", "1">>), Lit(<<"1", "3">>), Lit(<<"1", "7">>)>>
+LeafAlphabet == CASE LeafSet = "full" -> LeavesFull [] LeafSet = "small" -> LeavesSmall [] LeafSet = "primes" -> LeavesPrimes
+                  [] LeafSet = "pos" -> {PosLeaves[1]}
+LeafChoices(n) == IF LeafSet = "pos" THEN {[i \in 1..n |-> PosLeaves[i]]} ELSE [1..n -> LeafAlphabet]
+UnitLeaves == IF LeafSet = "pos" THEN {UnitLeaf(<<"k", "m">>)} ELSE {UnitLeaf(<<"m">>), UnitLeaf(<<"k", "m">>), UnitLeaf(<<"s">>)}
 Ops == {"+", "-", "*", "/", "^"}
 Hole == [t |-> "hole"]
+UHole == [t |-> "uhole"]
 
 RECURSIVE Shapes(_)
 Shapes(k) == IF k = 0 THEN {Hole}
-             ELSE UNION {{[t |-> "bin", op |-> o, l |-> a, r |-> b] : o \in Ops, a \in Shapes(i), b \in Shapes(k - 1 - i)}
-                         : i \in 0..(k - 1)}
-RECURSIVE NHoles(_)
-NHoles(x) == IF x.t = "hole" THEN 1 ELSE NHoles(x.l) + NHoles(x.r)
-\* fill the holes left to right with ls[i..]
-RECURSIVE Fill(_, _, _)
-Fill(x, ls, i) == IF x.t = "hole" THEN [tree |-> ls[i], next |-> i + 1]
-                  ELSE LET a == Fill(x.l, ls, i)
-                           b == Fill(x.r, ls, a.next) IN
-                       [tree |-> [t |-> "bin", op |-> x.op, l |-> a.tree, r |-> b.tree], next |-> b.next]
+             ELSE UNION {{Bin(o, a, b) : o \in Ops, a \in Shapes(i), b \in Shapes(k - 1 - i)} : i \in 0..(k - 1)}
+                  \cup (IF OpSet = "cast" THEN {Bin("to", a, UHole) : a \in Shapes(k - 1)} ELSE {})
+RECURSIVE NHoles(_), NUHoles(_)
+NHoles(x) == IF x.t = "hole" THEN 1 ELSE IF x.t = "uhole" THEN 0 ELSE NHoles(x.l) + NHoles(x.r)
+NUHoles(x) == IF x.t = "uhole" THEN 1 ELSE IF x.t = "hole" THEN 0 ELSE NUHoles(x.l) + NUHoles(x.r)
+\* fill the holes left to right with ls[i..], the unit holes with us[j..]
+RECURSIVE Fill(_, _, _, _, _)
+Fill(x, ls, i, us, j) ==
+  IF x.t = "hole" THEN [tree |-> ls[i], i |-> i + 1, j |-> j]
+  ELSE IF x.t = "uhole" THEN [tree |-> us[j], i |-> i, j |-> j + 1]
+  ELSE LET a == Fill(x.l, ls, i, us, j)
+           b == Fill(x.r, ls, a.i, us, a.j) IN
+       [tree |-> Bin(x.op, a.tree, b.tree), i |-> b.i, j |-> b.j]
 
 \* ---- meaning of a tree, directly (no lexer, no grammar)
+UnitOfChars(cs) == LET rs == Readings(cs) IN CHOOSE r \in rs : TRUE      \* m, km, s: one reading each
+CompoundOfLeaf(cs) == LET r == UnitOfChars(cs) IN TLCEval([u \in {r[1].u} |-> [pw |-> 1, px |-> r[1].e]])
 RECURSIVE EvalTree(_)
 EvalTree(x) ==
   CASE x.t = "lit" -> LitVal(x.cs)
     [] x.t = "pct" -> LET v == LitVal(x.cs) IN
                       IF IsVal(v) THEN Quantity(RDiv(v.v.si, RInt(100)), QDiv(v.v.q, <<100, 1>>), NoUnit) ELSE v
-    [] x.t = "bin" -> LET r == EvalTree(x.r)
+    [] x.t = "call" -> LET a == EvalTree(x.a) IN IF IsVal(a) THEN Builtin(FnName(x.fn), <<a.v>>) ELSE a
+    [] x.t = "bin" /\ x.op = "to" -> LET l == EvalTree(x.l) IN
+                                     IF ~IsVal(l) THEN l ELSE Cast(l.v, CompoundOfLeaf(x.r.cs))
+    [] x.t = "bin" /\ x.op # "to" ->
+                      LET r == EvalTree(x.r)
                           l == EvalTree(x.l) IN
                       IF r.k = "ood" \/ l.k = "ood" THEN Ood
                       ELSE IF ~IsVal(r) THEN r ELSE IF ~IsVal(l) THEN l ELSE Apply(x.op, l.v, r.v)
 
 \* ---- rendering
-OpPrio(o) == CASE o \in {"+", "-"} -> 2 [] o \in {"*", "/"} -> 3 [] o = "^" -> 10
-Paren(cs) == <<"(">> \o cs \o <<")">>
-LeafChars(x) == IF x.t = "pct" THEN x.cs \o <<"%">> ELSE x.cs
+OpPrio(o) == CASE o = "to" -> 1 [] o \in {"+", "-"} -> 2 [] o \in {"*", "/"} -> 3 [] o = "^" -> 10
 \* layouts: [par |-> "min" | "full", sp |-> "all" | "tight" | "wide"]
-\*   tight: no blank around * / ^ (the blanks around + and - are not optional: `2 -3` is `2` and `-3`)
+\*   tight: no blank around * / ^ , parentheses and commas (the blanks around + - and `to` are not
+\*          optional: `2 -3` is `2` and `-3`, `tom` is a word)
 \*   wide : two blanks / a tab around operators, blanks inside parentheses, leading and trailing blanks
 OpChars(o, sp) == IF o \in {"+", "-"} THEN (IF sp = "wide" THEN <<" ", " ", o, "\t">> ELSE <<" ", o, " ">>)
+                  ELSE IF o = "to" THEN (IF sp = "wide" THEN <<" ", " ", "t", "o", " ", " ">> ELSE <<" ", "t", "o", " ">>)
                   ELSE CASE sp = "all" -> <<" ", o, " ">> [] sp = "tight" -> <<o>> [] sp = "wide" -> <<"\t", o, " ", " ">>
-ParenL(cs, sp) == IF sp = "wide" THEN <<"(", " ">> \o cs \o <<" ", " ", ")">> ELSE Paren(cs)
+ParenL(cs, sp) == IF sp = "wide" THEN <<"(", " ">> \o cs \o <<" ", " ", ")">> ELSE <<"(">> \o cs \o <<")">>
 RECURSIVE Render(_, _)
 Render(x, lay) ==
-  IF x.t # "bin" THEN LeafChars(x)
-  ELSE LET needL == x.l.t = "bin" /\ (lay.par = "full" \/ OpPrio(x.l.op) < OpPrio(x.op))
+  CASE x.t = "lit" -> x.cs
+    [] x.t = "pct" -> x.cs \o <<"%">>
+    [] x.t = "unit" -> x.cs
+    [] x.t = "call" -> x.fn \o ParenL(Render(x.a, lay), lay.sp)
+    [] x.t = "bin" ->
+       LET needL == x.l.t = "bin" /\ (lay.par = "full" \/ OpPrio(x.l.op) < OpPrio(x.op))
            needR == x.r.t = "bin" /\ (lay.par = "full" \/ OpPrio(x.r.op) <= OpPrio(x.op))
            a == Render(x.l, lay)
            b == Render(x.r, lay) IN
@@ -80,11 +112,15 @@ Layouts == IF LayoutSet = "all" THEN {[par |-> p, sp |-> s] : p \in {"min", "ful
            ELSE {[par |-> "min", sp |-> "all"], [par |-> "full", sp |-> "tight"]}
 
 \* ---- reading a rendering back
+RECURSIVE JoinSeqs(_, _, _)
+JoinSeqs(s, toks, i) == IF i[1] >= i[2] THEN <<>> ELSE Text(s, toks[i[1]]) \o JoinSeqs(s, toks, <<i[1] + 1, i[2]>>)
 RECURSIVE AstTree(_, _, _)
 AstTree(s, toks, a) ==
   CASE a.t = "num" -> Lit(Text(s, toks[a.i]))
     [] a.t = "pct" -> Pct(Text(s, toks[a.i]))
-    [] a.t = "bin" -> [t |-> "bin", op |-> a.op, l |-> AstTree(s, toks, a.l), r |-> AstTree(s, toks, a.r)]
+    [] a.t = "bin" -> Bin(a.op, AstTree(s, toks, a.l), AstTree(s, toks, a.r))
+    [] a.t = "cast" -> Bin("to", AstTree(s, toks, a.l), UnitLeaf(JoinSeqs(s, toks, a.u)))
+    [] a.t = "call" -> IF Len(a.args) = 1 THEN Call(Text(s, toks[a.i]), AstTree(s, toks, a.args[1])) ELSE [t |-> "other"]
     [] OTHER -> [t |-> "other"]
 ReadBack(s) == LET toks == Lex(s) IN AstTree(s, toks, One(toks))
 
@@ -93,17 +129,18 @@ JoinChars(cs, i) == IF i > Len(cs) THEN "" ELSE cs[i] \o JoinChars(cs, i + 1)
 
 VARIABLES shape, tree
 vars == <<shape, tree>>
-None == [t |-> "none"]
-Init == shape \in UNION {Shapes(k) : k \in 0..K} /\ tree = None
-Next == /\ tree = None
-        /\ \E ls \in [1..NHoles(shape) -> Leaves] : tree' = Fill(shape, ls, 1).tree
+NoTree == [t |-> "none"]
+Init == shape \in UNION {Shapes(k) : k \in KMin..K} /\ tree = NoTree
+Next == /\ tree = NoTree
+        /\ \E ls \in LeafChoices(NHoles(shape)), us \in [1..NUHoles(shape) -> UnitLeaves] : tree' = Fill(shape, ls, 1, us, 1).tree
         /\ UNCHANGED shape
 Spec == Init /\ [][Next]_vars
 
-Built == tree # None
+Built == tree # NoTree
 RenderParses == Built => \A lay \in Layouts : ReadBack(RenderTop(tree, lay)) = tree
+ParserRefines == Built => \A lay \in Layouts : LET ks == TokKinds(Lex(RenderTop(tree, lay))) IN Refines(ks) /\ Lossless(ks)
 ValueLayers == Built => LET v == EvalTree(tree) IN
-                        IsVal(v) /\ Known(v.v.q) => REq(QRes(v.v.q), v.v.si)
+                        (IsVal(v) /\ Known(v.v.q) /\ ~v.v.free) => REq(RMul(QRes(v.v.q), Scale(v.v.u)), v.v.si)
 \* does evaluation reach a division by exact zero (or 0 to a negative power)?  defined on the
 \* exact layer only (all leaves are small), independent of Apply's own zero test
 RECURSIVE ExactVal(_)
@@ -112,7 +149,10 @@ XK(k) == [k |-> k, q |-> Unknown]
 ExactVal(x) ==      \* [k |-> "q", q] or k = "dz" / "err" / "big"
   CASE x.t = "lit" -> XQ(LitQ(Denote(x.cs)))
     [] x.t = "pct" -> XQ(QDiv(LitQ(Denote(x.cs)), <<100, 1>>))
-    [] x.t = "bin" ->
+    [] x.t = "call" -> LET a == ExactVal(x.a) IN
+                       IF a.k = "q" /\ FnName(x.fn) = "round" THEN XQ(QInt(QRound(a.q))) ELSE IF a.k = "q" THEN XK("big") ELSE a
+    [] x.t = "bin" /\ x.op = "to" -> LET l == ExactVal(x.l) IN IF l.k = "q" THEN XK("big") ELSE l
+    [] x.t = "bin" /\ x.op # "to" ->
          LET r == ExactVal(x.r)
              l == ExactVal(x.l) IN
          IF r.k # "q" THEN r ELSE IF l.k # "q" THEN l
@@ -128,6 +168,17 @@ DzPropagates == Built => LET e == ExactVal(tree)
                          /\ e.k = "dz" => v.k = "dz"
                          /\ e.k = "err" => v.k = "err"
                          /\ e.k = "q" => (IsVal(v) /\ v.v.q = e.q)
-EmitInv == (Emit /\ Built) =>
-             \A lay \in Layouts : PrintT(<<"VEC", ToJson([src |-> JoinChars(RenderTop(tree, lay), 1), par |-> lay.par, sp |-> lay.sp])>>)
+\* every exponent the evaluation meets is a known integer of at most two digits (the tool computes a
+\* power by repeated multiplication: larger exponents are outside the explored domain and are not replayed)
+RECURSIVE Tame(_)
+Tame(x) == CASE x.t = "bin" /\ x.op = "^" -> LET e == ExactVal(x.r) IN
+                                             /\ Tame(x.l) /\ Tame(x.r)
+                                             /\ (e.k \in {"dz", "err"} \/ (e.k = "q" /\ (e.q[2] # 1 \/ (e.q[1] <= 99 /\ e.q[1] >= -99))))
+             [] x.t = "bin" /\ x.op = "to" -> Tame(x.l)
+             [] x.t = "bin" /\ x.op \notin {"^", "to"} -> Tame(x.l) /\ Tame(x.r)
+             [] x.t = "call" -> Tame(x.a)
+             [] OTHER -> TRUE
+EmitInv == (Emit /\ Built /\ Tame(tree)) =>
+             \A lay \in Layouts : PrintT(<<"VEC", ToJson([src |-> JoinChars(RenderTop(tree, lay), 1), par |-> lay.par, sp |-> lay.sp,
+                                                          k |-> EvalTree(tree).k])>>)
 =============================================================================
